@@ -164,7 +164,7 @@ def worker_main(modname, variant, tier, seed, stream, start, stop, deadline, wor
         attempt += 1
     respath = os.path.join(workdir, "result.%s.%d.json" % (stream, attempt))
     journal = open(os.path.join(workdir, "journal.%s" % stream), "a")
-    last_dump = time.time()
+    last_dump = t_start = time.time()
     i = start
     while i < stop and time.time() < deadline:
         rng = case_rng(seed, stream, i)
@@ -187,7 +187,7 @@ def worker_main(modname, variant, tier, seed, stream, start, stop, deadline, wor
         journal.write("R %d\n" % i)
         journal.flush()
         i += 1
-        if time.time() - last_dump > 2.0:
+        if time.time() - last_dump > (0.4 if time.time() - t_start < 20 else 2.0):
             ctx.dump(respath)
             last_dump = time.time()
     ctx.dump(respath)
@@ -427,7 +427,7 @@ def main(module, argv=None):
                         inconclusive.append("worker %s/%d ended rc=%s outside a case: %s" % (pr["v"], pr["s"], rc, log[-800:]))
                         if nxt is None:
                             continue
-                    if nxt is not None and nxt < for_each and now < deadline and pr["restarts"] < 50:
+                    if nxt is not None and nxt < for_each and now < deadline and pr["restarts"] < 400:
                         # truncate log, restart after the fatal case
                         logf = open(os.path.join(pr["dir"], "log.%d" % pr["s"]), "wb")
                         p = _spawn(modname, pr["v"], tier, seed, pr["s"], nxt, for_each, deadline, pr["dir"],
